@@ -281,8 +281,18 @@ pub fn run(ctx: &mut Ctx) {
                 0 => {
                     let t = spell::gen_tuple(&mut r, false);
                     let mask = spell::random_mask(&mut r);
-                    let s = spell::spell(&mut r, &t, mask).assemble();
+                    let sp = spell::spell(&mut r, &t, mask);
+                    let s = sp.assemble();
                     one(ctx, &cfg, &s, true);
+                    // the same spelling with one fault of the C05 kinds (bad qualifier, malformed
+                    // checksum, bad escape, ...): where in the protocol the refusal happens
+                    if round % 8 == 0 {
+                        let kind = *r.pick(spell::FAULT_KINDS);
+                        if let Some(bad) = spell::inject(&mut r, &t, &sp, kind) {
+                            ctx.st.count("inputs-with-an-injected-fault");
+                            one(ctx, &cfg, &bad, true);
+                        }
+                    }
                 },
                 1 => {
                     let s = gen::mutate(&mut r, &corpus);
